@@ -34,9 +34,9 @@ Definition hash_ps (s : ps) : positive :=
   let bits := [p_err c; p_armed c; p_reader c; p_once c; p_wclosed c; p_d500 c; p_d1000 c;
                p_idknown c; p_dead c; p_ran c;
                m_granted m; m_term m; m_closed m; m_setup m; m_shipid m; m_idbad m; m_idknown m;
-               m_isdef m; m_lost m; m_cancelled m] in
+               m_isdef m; m_lost m; m_cancelled m; m_complete m; m_idok m] in
   let b := fold_left (fun acc x => 2 * acc + bN x) bits 0 in
-  N.succ_pos (p_st c + 64 * (p_tty c + 4 * (m_last m + 64 * (m_ncb m + 4 * (m_st0 m + 64 * (b + 1048576 * (m_viol m))))))).
+  N.succ_pos (p_st c + 64 * (p_tty c + 4 * (m_last m + 64 * (m_ncb m + 4 * (m_st0 m + 64 * (b + 4194304 * (m_viol m))))))).
 
 (* ---- one control event on the product ---- *)
 Definition pstep (s : ps) (e : cevx) : ps :=
